@@ -275,6 +275,13 @@ func c14StoreBytes(k *c14Key, s *c14Spec, rd io.Reader, rcpt *sm2.PrivateKey) (o
 	case c14P8Enc:
 		var enc pkcs.PBESEncrypter
 		var name string
+		if c14Mod(s.sub, 12) == 11 && c14Mod(s.iter, 4) == 3 && c14Mod(s.ek, c14EkKinds) == c14EkPBES2 && len(s.pw) > 0 {
+			// no encrypter given: the package default (pkcs8.DefaultOpts: AES-256-CBC, PBKDF2-HMAC-SHA256, 2048 iterations)
+			// through the convenience entry point
+			s.cipher, s.kdf = 7, 2
+			out, err = pkcs8.ConvertPrivateKeyToPKCS8(k.obj, s.pw)
+			return out, "pbes2/default options via pkcs8.ConvertPrivateKeyToPKCS8", false, err
+		}
 		if s.path&2 != 0 && c14LastEnc.enc != nil {
 			// the application keeps ONE encrypter object and protects the next key with it, under the next password
 			enc, name = c14LastEnc.enc, c14LastEnc.name+" (encrypter object reused)"
